@@ -446,10 +446,10 @@ def check_assets_provider(chk, F, rid="R17.10"):
                 want = limit is not None and (s_ < 500000000) == (limit < 500000000) and s_ <= limit
                 chk.obligation(rid, r == want, "check_after|max=%r|%d" % (limit, s_), "check_after(%d) with maximum %r is %r, expected %r"
                                % (s_, limit, r, want), where="src/plan.rs")
-        # Assets::append (behind Assets::add): sets are united, a lock of the newer Assets wins, otherwise the old one stays
-        app = [q for q in F.fns if q.endswith("plan::Assets::append")]
+        # Assets::add (public; a private helper does the merge): sets are united, a lock of the newer Assets wins, otherwise
+        # the old one stays
+        app = [q for q in F.fns if q.endswith("plan::Assets::add") and q in F.bodies]
         if len(app) == 1:
-            from ..interp import dcopy
             for (ra, rb), (aa, ab) in itertools.product(((None, None), (5, None), (None, 7), (5, 7)), ((None, None), (100, None), (None, 200), (100, 200))):
                 x = assets([("FP", [0], cansign(True, True, ("Any", None), True))], hashes=["H1"], rel=ra, abs_=aa)
                 y = assets([("OTHER", [1], cansign(False, True, ("None", None), False))], hashes=["H2"], rel=rb, abs_=ab)
@@ -458,7 +458,7 @@ def check_assets_provider(chk, F, rid="R17.10"):
                     y.fields[f_] = PySet(["H2"])
                 x.fields["keys"] = PySet([])
                 y.fields["keys"] = PySet([])
-                m.call_path(app[0], [x, y])
+                x = m.call_path(app[0], [x, y], {"def": app[0], "targs": ["plan::Assets"]})
                 n += 1
                 bad = []
                 wr = rb if rb is not None else ra
@@ -472,9 +472,9 @@ def check_assets_provider(chk, F, rid="R17.10"):
                 for f_ in ("sha256_preimages", "hash256_preimages", "ripemd160_preimages", "hash160_preimages"):
                     if sorted(x.fields[f_].items) != ["H1", "H2"]:
                         bad.append("%s = %r, expected the union" % (f_, x.fields[f_].items))
-                chk.obligation(rid, not bad, "append|rel=%r+%r|abs=%r+%r" % (ra, rb, aa, ab), "; ".join(bad[:2]), where="src/plan.rs")
+                chk.obligation(rid, not bad, "add|rel=%r+%r|abs=%r+%r" % (ra, rb, aa, ab), "; ".join(bad[:2]), where="src/plan.rs")
         else:
-            chk.fail(rid, "anchor|append", "Assets::append not found", kind="unanalysable")
+            chk.fail(rid, "anchor|add", "Assets::add not found", kind="unanalysable")
     except Unsupported as e:
         chk.fail(rid, "unanalysable", "unanalysable: %s" % e, where=e.where, kind="unanalysable")
     except Panic as e:
